@@ -133,6 +133,27 @@ def _msb_sweep(eb):
     return res
 
 
+def _fp_exp_sweep(eb):
+    """one-operand float functions branch on the exponent field: every biased exponent (binary32), or the
+    exponents around every boundary plus a stride through the rest (binary64), with the mantissas 0, 1, top
+    bit, all ones, in both signs"""
+    mb, xb = (23, 8) if eb == 32 else (52, 11)
+    emax = (1 << xb) - 1
+    if eb == 32:
+        exps = list(range(0, emax + 1))
+    else:
+        exps = sorted(set(list(range(0, 72)) + list(range(960, 1100)) + list(range(emax - 70, emax + 1)) + list(range(72, emax - 70, 41))))
+    out = []
+    for e in exps:
+        for m in (0, 1, 1 << (mb - 1), (1 << mb) - 1):
+            for sg in (0, 1):
+                out.append((sg << (eb - 1)) | (e << mb) | m)
+    return out
+
+
+FP_SWEEP = [False]      # set by the float rules: the single operand is a float (exponent sweep is meaningful)
+
+
 def gen_envs(argspecs, seed=0, limit=2600):
     """argspecs: list of (bits, lane_bits, domain) per IR argument.  Yields
     argument vectors: uniform vectors for every pair of lattice values
@@ -146,8 +167,14 @@ def gen_envs(argspecs, seed=0, limit=2600):
         # one data argument: the lattice can afford a sweep over the position of the highest / lowest
         # set bit (bit-counting and int->float emulations branch on exactly that)
         # (lanes of <= 16 bits are decided by the truth table instead)
-        cands = [(c + [x for x in _msb_sweep(argspecs[i][1]) if x not in set(c)]) if c and argspecs[i][1] > 16 else c
-                 for i, c in enumerate(cands)]
+        def ext(c, extra):
+            have = set(c)
+            return c + [x for x in extra if x not in have]
+        if FP_SWEEP[0]:
+            # float operand: the exponent sweep first (it is what float emulations branch on)
+            cands = [ext(c, _fp_exp_sweep(argspecs[i][1])) if c and argspecs[i][1] in (32, 64) else c for i, c in enumerate(cands)]
+            limit = max(limit, 6000)
+        cands = [ext(c, _msb_sweep(argspecs[i][1])) if c and argspecs[i][1] > 16 else c for i, c in enumerate(cands)]
     C = max([len(c) for c in cands if c] + [1])
     shapes = []
     if nargs <= 1:
@@ -207,8 +234,10 @@ def gen_envs(argspecs, seed=0, limit=2600):
             break
 
 
+DAZ_MODE = [False]      # also evaluate under MXCSR.DAZ (set by rules whose specification is not a float operation: masks)
 EXTRA_POINTS = [None]   # rule-specific paired lane values [{argname: lane value}], tried first (uniform vectors)
 NUMEQ = [False]     # compare float lanes as numbers (+0 == -0): set by rules whose statement says "same number"
+NANEQ = [False]     # two NaN lanes count as equal (payload / sign of a NaN result unspecified), zeros keep their sign
 
 
 def _same_mod_nan(a, e, width, eb):
@@ -219,7 +248,7 @@ def _same_mod_nan(a, e, width, eb):
         x, y = (a >> (i * eb)) & M, (e >> (i * eb)) & M
         if x != y and not (fpeval.isnan(x, eb) and fpeval.isnan(y, eb)):
             if NUMEQ[0] and (x << 1) & M == 0 and (y << 1) & M == 0:
-                continue
+                continue        # +0 and -0 are the same number
             return False
     return True
 
@@ -229,6 +258,8 @@ def find_witness(actual, expected, argspecs, names=None, lane_bits=None, seed=0,
     Closed forms with float arithmetic are evaluated under all four rounding modes."""
     fp = T.has_fp(actual) or T.has_fp(expected)
     modes = ("RN", "RD", "RU", "RZ") if fp else ("RN",)
+    if DAZ_MODE[0] and (fp or T.contains_op(actual, ("fcmp",))):
+        modes = modes + ("RN/daz",)
     for w_ in _find_witness(actual, expected, argspecs, names, lane_bits, seed, env_ok, watch, modes, fp):
         return w_
     return None
@@ -273,7 +304,7 @@ def _cross_lane_envs(actual, argspecs, lane_bits):
                 lb = argspecs[k][1]
                 vals = _lane_cands(lb)
                 LM = (1 << lb) - 1
-                pv = [vals[x % len(vals)] for x in (1, 4, 6, 12, 18, 24, 3, 9, 20, 30, 33)] + [LM, (LM >> 1) + 1, 0x0123456789ABCDEF & LM]
+                pv = [vals[x % len(vals)] for x in (1, 4, 6, 12, 18, 24, 3, 9, 20, 30, 33)] + [LM, (LM >> 1) + 1, 0]
                 v = pv[vi]
                 args = []
                 for ai, (b, l2, dom) in enumerate(argspecs):
@@ -364,7 +395,7 @@ def _find_witness(actual, expected, argspecs, names, lane_bits, seed, env_ok, wa
     # integer nodes are evaluated by the straight-line translation of lib/tcompile.py (about 0.1 us each);
     # a float step is exact rational arithmetic (about 15 us): one work tick is ~64 integer nodes or half a
     # float step
-    budget = max(24, min(2600, 4000000 // (sz + 150 * nfp)))
+    budget = max(24, min(6000 if FP_SWEEP[0] else 2600, 4000000 // (sz + 150 * nfp)))
     cost = max(1, sz // 64 + 2 * nfp) * len(modes)
     probes = list(itertools.islice(_cross_lane_envs(actual, argspecs, lane_bits), 600 if nfp * 40 < sz else 120))
     probes = list(_dep_diff_envs(actual, expected, argspecs)) + probes
@@ -422,7 +453,9 @@ def _mem_byte(a):
 
 def _one_env(actual, expected, args, names, lane_bits, watch, rm, fp):
     if True:
-        env = {"args": args, "mem": _mem_byte, "rm": rm}
+        env = {"args": args, "mem": _mem_byte, "rm": rm.split("/")[0]}
+        if rm.endswith("/daz"):
+            env["daz"] = True
         if watch:
             env = dict(env, watch=None)
         try:
@@ -443,7 +476,7 @@ def _one_env(actual, expected, args, names, lane_bits, watch, rm, fp):
             return w
         except T.Uneval:
             return None
-        if a != e and not ((fp or NUMEQ[0]) and lane_bits in (32, 64) and _same_mod_nan(a, e, actual[1], lane_bits)):
+        if a != e and not ((fp or NUMEQ[0] or NANEQ[0]) and lane_bits in (32, 64) and _same_mod_nan(a, e, actual[1], lane_bits)):
             w = {"args": {}, "got": hex(a), "expected": hex(e)}
             if fp:
                 w["rounding_mode"] = rm
@@ -551,22 +584,37 @@ def exhaustive_lanes(actual, expected, argspecs, names, lane_bits, env_ok=None, 
         if key in done:
             continue
         bitsused = {}
+        membits = {}        # (pointer argument, byte offset) -> set of bit numbers read
         for t in (ta, te):
             for lf in T.leaves(t, ("arg", "mem")):
                 if lf[0] == "mem":
-                    return None, "memory leaf"
+                    # initial memory read through a pointer argument at a constant offset: its bits are
+                    # enumerated like argument bits (the pointer itself is held at a fixed address)
+                    base = lf[2]
+                    if not (isinstance(base, tuple) and base[0] == "arg" and base[1] == 64 and base[3] == 0):
+                        return None, "memory leaf with a computed address"
+                    for b in range(lf[4], lf[4] + lf[1]):
+                        membits.setdefault((base[2], lf[3] + b // 8), set()).add(b % 8)
+                    continue
                 for b in range(lf[3], lf[3] + lf[1]):
                     bitsused.setdefault(lf[2], set()).add(b)
+        for (pk, off) in membits:
+            bitsused.pop(pk, None)      # the pointer value is not enumerated
+        morder = [(pk, off, b) for (pk, off) in sorted(membits) for b in sorted(membits[(pk, off)])]
         order = [(k, b) for k in sorted(bitsused) for b in sorted(bitsused[k])]
-        if len(order) > max_bits:
-            return None, "lane %d depends on %d input bits" % (i, len(order))
+        if len(order) + len(morder) > max_bits:
+            return None, "lane %d depends on %d input bits" % (i, len(order) + len(morder))
+        nreg = len(order)
+        order = order + [("mem", m_) for m_ in morder]
         if points + (1 << len(order)) > max_points:
             return None, "enumeration budget"
         nargs = len(argspecs)
         szl = max(1, (T.size(ta) + T.size(te)) // 8)
         cta, cte = tcompile.compiled(ta, watch), tcompile.compiled(te)
         allowance = 2500000 if (T.has_fp(ta) or T.has_fp(te)) else 12000000
-        for v in range(1 << len(order)):
+        dazmodes = (False, True) if DAZ_MODE[0] and (T.has_fp(ta) or T.contains_op(ta, ("fcmp",))) else (False,)
+        import itertools
+        for dazrun, v in itertools.product(dazmodes, range(1 << len(order))):
             if (v & 255) == 0:
                 # the truth table is complete, so it gets its own (deterministic) allowance instead of
                 # competing with summarisation and the heuristic search for the instance budget
@@ -574,9 +622,16 @@ def exhaustive_lanes(actual, expected, argspecs, names, lane_bits, env_ok=None, 
                 if spent[0] > allowance:
                     return None, "work budget"
             args = [0] * nargs
+            memtab = {}
             for j, (k, b) in enumerate(order):
                 if (v >> j) & 1:
-                    args[k] |= 1 << b
+                    if k == "mem":
+                        pk, off, bit = b
+                        memtab[0x100000 * (pk + 1) + off] = memtab.get(0x100000 * (pk + 1) + off, 0) | (1 << bit)
+                    else:
+                        args[k] |= 1 << b
+            for (pk, off) in membits:
+                args[pk] = 0x100000 * (pk + 1)
             ok = True
             for k, (bts, lb, dom) in enumerate(argspecs):
                 if dom is not None and k in bitsused and dom(args[k]) != args[k]:
@@ -598,8 +653,12 @@ def exhaustive_lanes(actual, expected, argspecs, names, lane_bits, env_ok=None, 
                     continue
                 args = full
             env = {"args": args}
+            if membits:
+                env["mem"] = (lambda a_, mt=memtab: mt.get(a_, 0))
             if watch:
                 env["watch"] = watch
+            if dazrun:
+                env["daz"] = True
             try:
                 e = cte.ev(dict(env, watch=None) if watch else env)
             except T.Uneval:
@@ -616,6 +675,11 @@ def exhaustive_lanes(actual, expected, argspecs, names, lane_bits, env_ok=None, 
             if a != e:
                 w = {"args": {names[k] if k < len(names) else "arg%d" % k: hex(x) for k, x in enumerate(args)},
                      "got": hex(a), "expected": hex(e), "lane": i}
+                if membits:
+                    w["memory_bytes"] = {"%s+%d" % (names[pk] if pk < len(names) else "arg%d" % pk, off):
+                                         hex(memtab.get(0x100000 * (pk + 1) + off, 0)) for (pk, off) in sorted(membits)}
+                if dazrun:
+                    w["mxcsr"] = "DAZ set (denormal operands read as zero): a mask operation must not depend on the floating-point environment"
                 return "REFUTED", w
         done[key] = True
     return "HOLDS", points
